@@ -12,6 +12,7 @@ let run_job (job : Sx.t) : string =
   | "pblock" -> Jfront.job_pblock job
   | "pprog" -> Jfront.job_pprog job
   | "tcheck" -> Jcheck.job_tcheck job
+  | "parg" -> Jcheck.job_parg job
   | "pretty" -> Jfront.job_pretty job
   | "consts" -> Jconsts.job_consts job
   | "sortnet" -> Jsort.job_sortnet job
